@@ -243,7 +243,9 @@ def _exec_archive(ctx, spec):
             if not isinstance(exc, OSError):
                 out.viol('archive-overwrite-not-refused', tag, f'{type(exc).__name__ if exc else "no exception"}')
                 return out
-            if open(arch, 'rb').read() != before_arch:
+            if not os.path.exists(arch):
+                out.viol('archive-refused-but-changed', tag, 'the existing archive was deleted by the refused call')
+            elif open(arch, 'rb').read() != before_arch:
                 out.viol('archive-refused-but-changed', tag, 'existing archive file modified')
             return out
         if exc is not None:
